@@ -1,9 +1,9 @@
 SPECIFICATION Spec
 CONSTANTS
-  MaxN = 4
+  MaxN = 3
   MaxWant = 3
   MaxRetries = 2
-  KindSet = {"ok1", "ok2", "s403", "s503", "connerr", "okcut", "s500"}
+  KindSet = {"ok1", "ok2", "s403", "connerr", "okcut", "s500"}
   MaxHist = 0
 VIEW view
 INVARIANTS TypeOK Accounting ActiveIsPending
